@@ -75,6 +75,7 @@ func (e *EventSubscription) addSubscriber(sub Subscriber, t *Throttle) {
 		if rs.state != stateError {
 			rs.subs[sub] = struct{}{}
 		}
+		verifNote("cacheAddSub", "name", e.ResourceName, "query", q, "state", int(rs.state), "subs", len(rs.subs), "cid", sub.CID())
 
 		switch rs.state {
 		// A subscription is made, but no request for the data.
@@ -225,6 +226,7 @@ func (e *EventSubscription) addCount() {
 // in the unsubscribe queue if count reaches zero.
 func (e *EventSubscription) removeCount(n int64) {
 	e.count -= n
+	verifNote("cacheRem", "name", e.ResourceName, "n", n, "count", e.count)
 	if e.count == 0 && n != 0 {
 		e.cache.unsubQueue.Add(e)
 	}
